@@ -585,7 +585,7 @@ func longStall(c config, r *hk.JobResult) *hk.JobResult {
 		for t := 0; t < c.Long; t++ {
 			if _, err := s.apply(0, symTick); err != nil {
 				viol = &hk.Violation{Key: "C03:limit-exceeded-after-long-stall", Message: fmt.Sprintf("tick %d: %v", t+1, err),
-					Replay: map[string]any{"config": c, "history": fmt.Sprintf("arrive 0, arrive +2, then %d ticks", t+1)}}
+					Replay: replay{Config: c, History: []string{"arrive 0", "arrive +2", fmt.Sprintf("%d ticks", t+1)}}}
 				break
 			}
 			r.Transitions++
@@ -598,7 +598,7 @@ func longStall(c config, r *hk.JobResult) *hk.JobResult {
 	r.Samples = append(r.Samples, map[string]any{"config": c, "history": "arrive 0, arrive +2, 65540 ticks"})
 	if viol == nil {
 		if msg := runFailure(res); msg != "" {
-			viol = &hk.Violation{Key: "C03:runtime", Message: msg, Replay: map[string]any{"config": c}}
+			viol = &hk.Violation{Key: "C03:runtime", Message: msg, Replay: replay{Config: c}}
 		}
 	}
 	if viol != nil {
